@@ -1,4 +1,5 @@
 import Tk.Basic
+import Tk.Registry
 
 /-! # C19 — property theorems (statements only; proofs live in the family libraries) -/
 
@@ -50,6 +51,24 @@ theorem tickOf_monotone_times :
     (hr : t - tick0 ≤ maxDur) (hprev : prev = (t' - tick0) / d),
     tickOf tick0 t d prev = (t - tick0) / d :=
   @Tk.tickOf_monotone_times
+end
+
+section
+open Tk
+
+/-- the registry lists an analysed commit under the tick it was given -/
+theorem record_lists :
+    ∀ (r : Reg) (tick : Int) (commit np : Nat), commit ∈ regGet (record r tick commit np) tick :=
+  @Tk.record_lists
+
+/-- if every replay of a commit gets the same tick (monotone committer times, `tickOf_monotone_times`) and parentless
+commits are replayed once, every replayed commit is listed exactly once however often it is replayed -/
+theorem recordAll_once :
+    ∀ (tk : Nat → Int) (rs : List Replay) (c : Nat)
+    (hsame : ∀ x ∈ rs, x.tick = tk x.commit)
+    (hroot : ∀ x ∈ rs, x.nparents = 0 → (rs.filter (·.commit = x.commit)).length = 1),
+    listed (recordAll [] rs) c = if rs.any (·.commit = c) then 1 else 0 :=
+  @Tk.recordAll_once
 end
 
 end Props.C19
